@@ -15,7 +15,9 @@ OPAQUE_FNS = ["format_type_error", "format_type_error_with_suggestion", "display
               "as_ide_string", "as_string", "most_similar_var", "most_similar", "type_representation",
               "format_exception_with_stack", "top_frame_name", "describe_read_error", "join_with_and",
               # type-hint resolution walks hash maps of type definitions: opaque result, no machine-state effect
-              "Type::from_hint", "Type::from_value", "Type::from_hints"]
+              "Type::from_hint", "Type::from_value", "Type::from_hints",
+              # namespace table lookups / creation (hash maps of whole-file state; not part of the operand machine)
+              "Env::get_or_create_namespace", "Env::get_namespace", "print_as_json"]
 
 _prog_cache = {}
 
